@@ -6,7 +6,10 @@ optimize_kl.  Reference: the same script with comm=None in the same process.
 """
 import functools
 import json
+import os
 import random
+import re
+import shutil
 
 import numpy as np
 
@@ -28,6 +31,77 @@ def reset_globals():
     ift.random.setState(_PRISTINE)
     okl._output_directory = None
     okl._save_strategy = None
+
+
+def scratch_dir():
+    return f"/dev/shm/verif-c22-{os.getpid()}"
+
+
+def make_fs(p):
+    """(SimFS, output directory).  Runs that export HDF5 files write to a real
+    tmpfs directory behind the recording pass-through layer (h5py writes from
+    C); all other runs use the in-memory file system."""
+    if p.get("export"):
+        sc = scratch_dir()
+        shutil.rmtree(sc, ignore_errors=True)
+        os.makedirs(sc)
+        return simfs.SimFS("/simfs/c22-unused", passthrough=(sc,)), sc + "/out"
+    return simfs.SimFS(ROOT), ROOT + "/out"
+
+
+def odir_of(p):
+    return (scratch_dir() if p.get("export") else ROOT) + "/out"
+
+
+def _h5_content(path):
+    import h5py
+    out = {}
+    with h5py.File(path, "r") as f:
+        def visit(name, g):
+            if isinstance(g, h5py.Dataset):
+                out[name] = np.array(g)
+        f.visititems(visit)
+    return out
+
+
+def _file_digest(name, b):
+    """Canonical, task-count independent content of one output file (None: the
+    file is task-count dependent by design and not compared)."""
+    import pickle
+    if name == "counting_report.txt":          # one section per task
+        return None
+    if name.endswith(".txt"):
+        txt = b.decode()
+        return core.digest([l for l in txt.splitlines() if not l.startswith("Current datetime:")])
+    if name in ("last_finished_iteration", "nifty_random_state"):
+        return core.digest(b)
+    try:
+        return core.digest(pickle.loads(b))
+    except Exception:
+        return core.digest(b)
+
+
+def file_contents(fs, p):
+    out = {}
+    if p.get("export"):
+        top = scratch_dir()
+        for d, _, names in sorted(os.walk(top)):
+            for nm in sorted(names):
+                full = os.path.join(d, nm)
+                rel = full[len(top):]
+                if nm.endswith(".hdf5"):
+                    out[rel] = core.digest(_h5_content(full))
+                else:
+                    with open(full, "rb") as f:
+                        dg = _file_digest(nm, f.read())
+                    if dg is not None:
+                        out[rel] = dg
+        return out
+    for path, data in sorted(fs.files.items()):
+        dg = _file_digest(os.path.basename(path), bytes(data))
+        if dg is not None:
+            out[path[len(fs.root):]] = dg
+    return out
 
 
 def comps(d):
@@ -167,8 +241,10 @@ def reset_rng_only():
     pass
 
 
-def script_w4(p):
-    """Full optimize_kl runs incl. output directory on the simulated disk."""
+def script_w4(p, phase=None):
+    """Full optimize_kl runs incl. output directory on the simulated disk.
+    phase='first': stop after iteration p['stop_at'] (terminate_callback);
+    phase='resume': continue an interrupted run with resume=True."""
     import nifty.cl as ift
 
     def run(comm):
@@ -190,16 +266,32 @@ def script_w4(p):
         seen = []
         if p.get("transitions"):
             kw["transitions"] = lambda i: None if i == 0 else (lambda sl: sl.average())
-        odir = (ROOT + "/out") if p["odir"] else None
+        if p.get("fresh") == "only0":
+            kw["fresh_stochasticity"] = lambda i: i == 0
+        elif p.get("fresh") == "alt":
+            kw["fresh_stochasticity"] = lambda i: i % 2 == 0
+        if p.get("export"):
+            sky = ift.FieldAdapter(lh.domain["a"], "a").exp()
+            kw["export_operator_outputs"] = {
+                "sky": sky, "ab": ift.FieldAdapter(lh.domain["a"], "a") + ift.FieldAdapter(lh.domain["b"], "b")}
+        if phase == "first":
+            kw["terminate_callback"] = lambda i: i == p["stop_at"]
+        if phase == "resume":
+            kw["resume"] = True
+        odir = odir_of(p) if p["odir"] else None
         sl, mean = ift.optimize_kl(
             lh, p["nit"], (lambda i: (ns["a"] if i < ns["at"] else ns["b"])) if isinstance(ns, dict) else ns,
             mini, ic, output_directory=odir, save_strategy=p["strategy"],
             plot_energy_history=False, plot_minisanity_history=False, return_final_position=True,
             comm=comm, inspect_callback=lambda s, i: seen.append((i, s.n_samples)), **kw)
-        out = {"samples": list(sl.iterator()), "n_samples": sl.n_samples, "mean": mean, "callback": seen}
+        out = {"samples": list(sl.iterator()), "n_samples": sl.n_samples, "mean": mean}
+        if phase is None:
+            out["callback"] = seen
+        if phase == "first":
+            return comps(out)
+        out["sample_stat"] = list(sl.sample_stat(None))
         if odir is not None:
             base = odir + "/pickle/" + ("latest" if p["strategy"] == "latest" else f"iteration_{p['nit'] - 1}")
-            import os
             if os.path.isfile(base + ".mean.pickle"):
                 sl2 = ift.ResidualSampleList.load(base, comm=comm)
             else:
@@ -216,7 +308,7 @@ def script_w4(p):
     return run
 
 
-SCRIPTS = {"W1": script_w1, "W2": script_w2, "W3": script_w3, "W4": script_w4}
+SCRIPTS = {"W1": script_w1, "W2": script_w2, "W3": script_w3, "W4": script_w4, "W5": script_w4}
 
 
 # --------------------------------------------------------------------------
@@ -224,10 +316,37 @@ SCRIPTS = {"W1": script_w1, "W2": script_w2, "W3": script_w3, "W4": script_w4}
 def reference(script, pjson):
     p = json.loads(pjson)
     reset_globals()
-    fs = simfs.SimFS(ROOT)
-    with simfs.mounted(fs):
-        r = SCRIPTS[script](p)(None)
-    return r, sorted(fs.listing()) if script == "W4" else None
+    fs, _ = make_fs(p)
+    try:
+        with simfs.mounted(fs):
+            r = SCRIPTS[script](p)(None)
+        files = file_contents(fs, p) if script in ("W4", "W5") else None
+    finally:
+        if p.get("export"):
+            shutil.rmtree(scratch_dir(), ignore_errors=True)
+    return r, files
+
+
+def _problems(out, script):
+    probs = out.problems()
+    if not probs:
+        return None, ""
+    exc = next((e for e in out.exc if e is not None), None)
+    if exc is not None:
+        sig = {"oracle": "rank-raised", "exc": type(exc).__name__, "script": script}
+    else:
+        sig = {"oracle": probs[0].split(":")[0], "script": script}
+    return sig, "; ".join(probs)[:600] + (f" | {type(exc).__name__}: {exc}"[:300] if exc is not None else "")
+
+
+def _merge_out(a, b):
+    """Scheduler statistics of a two-phase case."""
+    for k, v in b.stats.items():
+        a.stats[k] = a.stats.get(k, 0) + v
+    a.steps += b.steps
+    a.trace = list(b.trace) + [(0, 0, "new-job")] + list(a.trace)
+    a.first_phase = b
+    return a
 
 
 def run_case(case):
@@ -236,32 +355,62 @@ def run_case(case):
     ref, reffiles = reference(script, pjson)
     reset_globals()
     sched.install_mpi_stub()
-    fs = simfs.SimFS(ROOT)
-    fn = SCRIPTS[script](p)
-    with simfs.mounted(fs):
-        out = sched.simulate(fn, n, case["sched"], case["sem"], step_cap=300000, est_steps=case.get("est", 300))
-    reset_globals()
+    fs, _ = make_fs(p)
     sig, detail = None, ""
-    probs = out.problems()
-    if probs:
-        first = probs[0]
-        exc = next((e for e in out.exc if e is not None), None)
-        if exc is not None:
-            sig = {"oracle": "rank-raised", "exc": type(exc).__name__, "script": script}
+    try:
+        if script == "W5":
+            # phase 1 on n tasks stops after iteration stop_at; phase 2 = a new job on n2 tasks resumes
+            with simfs.mounted(fs):
+                out1 = sched.simulate(script_w4(p, "first"), n, case["sched"], case["sem"], step_cap=300000,
+                                      est_steps=case.get("est", 300))
+            sig, detail = _problems(out1, script)
+            if sig is not None:
+                sig["phase"] = "first"
+                out = out1
+            else:
+                reset_globals()
+                with simfs.mounted(fs):
+                    out = sched.simulate(script_w4(p, "resume"), case["n2"], case["sched2"], case["sem2"],
+                                         step_cap=300000, est_steps=case.get("est", 300))
+                _merge_out(out, out1)
+                nres = case["n2"]
         else:
-            sig = {"oracle": first.split(":")[0], "script": script}
-        detail = "; ".join(probs)[:600] + (f" | {type(exc).__name__}: {exc}"[:300] if exc is not None else "")
-    else:
-        for r in range(n):
+            fn = SCRIPTS[script](p)
+            with simfs.mounted(fs):
+                out = sched.simulate(fn, n, case["sched"], case["sem"], step_cap=300000, est_steps=case.get("est", 300))
+            nres = n
+        files = file_contents(fs, p) if (script in ("W4", "W5") and sig is None and out.ok()) else None
+    finally:
+        if p.get("export"):
+            shutil.rmtree(scratch_dir(), ignore_errors=True)
+    reset_globals()
+    if sig is None:
+        sig, detail = _problems(out, script)
+        if sig is not None and script == "W5":
+            sig["phase"] = "resume"
+    if sig is None:
+        for r in range(nres):
             res = out.results[r]
-            bad = [k for k in sorted(ref) if res.get(k) != ref[k]] + [k for k in sorted(res) if k not in ref]
+            bad = [k for k in sorted(ref) if k in res and res[k] != ref[k]] + [k for k in sorted(res) if k not in ref]
+            if script != "W5":
+                bad += [k for k in sorted(ref) if k not in res]
             if bad:
                 sig = {"oracle": "result-differs-from-single-process", "script": script, "component": bad[0]}
-                detail = f"rank {r} of {n}: components {bad} differ"
+                detail = f"rank {r} of {nres}: components {bad} differ"
                 break
-        if sig is None and reffiles is not None and sorted(fs.listing()) != reffiles:
-            sig = {"oracle": "files-differ-from-single-process", "script": script}
-            detail = f"{sorted(fs.listing())} vs {reffiles}"
+        if sig is None and reffiles is not None:
+            if sorted(files) != sorted(reffiles):
+                sig = {"oracle": "files-differ-from-single-process", "script": script}
+                detail = f"{sorted(files)} vs {sorted(reffiles)}"
+            else:
+                badf = [k for k in sorted(files) if files[k] != reffiles[k]]
+                if script == "W5":
+                    # text reports of a stopped-and-resumed run legitimately differ from an uninterrupted one
+                    badf = [k for k in badf if not k.endswith(".txt")]
+                if badf:
+                    sig = {"oracle": "file-content-differs-from-single-process", "script": script,
+                           "file": re.sub(r"[0-9]+", "N", os.path.basename(badf[0]))}
+                    detail = f"files {badf} differ in content from the single-process run"
     lo = out.leftover
     if sig is None and (lo["buffered_messages"] or lo["posted_receives"] or len(set(lo["collective_counts"])) != 1):
         sig = {"oracle": "conservation", "script": script}
@@ -270,18 +419,25 @@ def run_case(case):
     probes = {
         "more_ranks_than_samples": int((script == "W1" and n > p["m"]) or
                                        (script in ("W2", "W3") and n > p["n_samples"] * (2 if p["mirror"] else 1)) or
-                                       (script == "W4" and not isinstance(p["n_samples"], dict) and n > 2 * p["n_samples"])),
+                                       (script in ("W4", "W5") and not isinstance(p["n_samples"], dict) and
+                                        max(n, case.get("n2", 0)) > 2 * p["n_samples"])),
         "mirrored_pair_split": int(script == "W2" and p["mirror"] and n > 1 and (2 * p["n_samples"]) % n != 0 or
                                    (script == "W2" and p["mirror"] and n > p["n_samples"])),
         "empty_rank_explicit_partition": int(script == "W1" and p["partition"] is not None and 0 in p["partition"]),
-        "map_run": int(script == "W4" and (p["n_samples"] == 0 or isinstance(p["n_samples"], dict))),
+        "map_run": int(script in ("W4", "W5") and (p["n_samples"] == 0 or isinstance(p["n_samples"], dict))),
         "geovi": int(bool(p.get("geovi"))),
+        "hdf5_export": int(bool(p.get("export"))),
+        "output_files_compared": len(reffiles) if (reffiles is not None and sig is None) else 0,
+        "resumed_on_other_task_count": int(script == "W5" and sig is None and case.get("n2") != n),
     }
     res = {"sig": sig, "detail": detail, "trace_digest": out.trace_digest, "steps": out.steps,
            "stats": out.stats, "probes": probes, "multi": out.stats["multi_enabled_steps"]}
     if sig is not None:
         ps, ss = sched.explicit_specs(out)
         res["explicit"] = dict(case, sched=ps, sem=ss)
+        if script == "W5" and sig.get("phase") != "first":
+            ps1, ss1 = sched.explicit_specs(out.first_phase)
+            res["explicit"] = dict(case, sched=ps1, sem=ss1, sched2=ps, sem2=ss)
     if case.get("want_trace"):
         res["trace"] = [list(map(str, e)) for e in out.trace[:80]]
     return res
@@ -314,19 +470,40 @@ def gen_params(script, rng):
                 "geovi": rng.random() < 0.3, "strategy": rng.choice(["all", "latest"]),
                 "constants": rng.choice([[], [], ["a"], "callable"]),
                 "point_estimates": rng.choice([[], [], ["b"], "callable"]),
-                "odir": rng.random() < 0.7, "transitions": rng.random() < 0.3}
+                "odir": rng.random() < 0.7, "transitions": rng.random() < 0.3,
+                "fresh": rng.choice(["true", "true", "only0", "alt"]), "export": False}
+    if script == "W5":
+        p = gen_params("W4", rng)
+        p["nit"] = rng.choice([3, 3, 4])
+        p["odir"] = True
+        p["stop_at"] = rng.randrange(0, p["nit"] - 1)
+        return p
     raise ValueError(script)
 
 
 def cases_for(tier, seed):
     rng = random.Random(core.h64(seed, "c22-cases"))
-    quota = {"W1": 60, "W2": 40, "W3": 10, "W4": 14} if tier == "quick" else \
-            {"W1": 600, "W2": 500, "W3": 80, "W4": 160}
+    quota = {"W1": 60, "W2": 40, "W3": 10, "W4": 16, "W5": 10} if tier == "quick" else \
+            {"W1": 600, "W2": 500, "W3": 80, "W4": 180, "W5": 120}
     nsched = 2 if tier == "quick" else 5
     cases = []
     for script, q in quota.items():
         for _ in range(q):
             p = gen_params(script, rng)
+            if script == "W4" and p["odir"] and rng.random() < 0.35:
+                p["export"] = True
+            if script == "W5":
+                if rng.random() < 0.25:
+                    p["export"] = True
+                for _k in range(3 if tier == "quick" else 5):
+                    n, n2 = rng.randrange(1, 5), rng.randrange(1, 5)
+                    c = {"script": script, "params": p, "n": n, "n2": n2, "est": 2000}
+                    for suf, nn in (("", n), ("2", n2)):
+                        mode = rng.choice(["rendezvous", "mixed", "eager", "mixed"])
+                        c["sem" + suf] = {"mode": mode} if mode != "mixed" else {"mode": "mixed", "seed": rng.getrandbits(48)}
+                        c["sched" + suf] = {"kind": "seeded", "seed": rng.getrandbits(48)} if nn > 1 else {"kind": "low"}
+                    cases.append(c)
+                continue
             for n in range(1, 7):
                 if script == "W4" and n > 4 and rng.random() < 0.5:
                     continue
@@ -352,10 +529,24 @@ def minimise(explicit, sig):
         return r["sig"] == sig, r
     cur = dict(explicit)
     cur["sched"] = dict(cur["sched"], strict=False)
+    if "sched2" in cur:
+        cur["sched2"] = dict(cur["sched2"], strict=False)
     ok, _ = fails(cur)
     if not ok:
         return explicit
-    for n in range(2, cur["n"]):
+    if cur["script"] == "W5":
+        for n, n2 in ((1, 2), (2, 1), (1, 3), (3, 1), (2, 3), (3, 2), (1, 1)):
+            if (n, n2) >= (cur["n"], cur["n2"]):
+                continue
+            c = dict(cur, n=n, n2=n2, sched={"kind": "low"}, sched2={"kind": "low"})
+            if fails(c)[0]:
+                cur = c
+                break
+        for key in ("sem", "sem2"):
+            c = dict(cur, **{key: {"mode": "eager"}})
+            if fails(c)[0]:
+                cur = c
+    for n in range(2, cur["n"] if cur["script"] != "W5" else 0):
         pp = dict(cur["params"])
         if pp.get("partition") is not None:
             pp["partition"] = None
@@ -374,7 +565,8 @@ def minimise(explicit, sig):
     p = cur["params"]
     simpl = []
     for k, v in (("geovi", False), ("constants", []), ("point_estimates", []), ("mirror", False),
-                 ("n_samples", 1), ("m", 1), ("op", None), ("subdomain", False), ("odir", False), ("nit", 2),
+                 ("n_samples", 1), ("m", 1), ("op", None), ("subdomain", False), ("export", False), ("fresh", "true"),
+                 ("transitions", False), ("odir", False), ("nit", 2),
                  ("ftype", "field"), ("kind", "plain")):
         if k in p and p[k] != v:
             simpl.append(dict(p, **{k: v}, **({"partition": None} if k == "m" and "partition" in p else {})))
